@@ -83,7 +83,17 @@ def run(chk, repo):
                    "state.value)", ss))
     chk.ob("R14.1", T + ".set_state", "writes AL control 0x0120", ok, ss,
            "FPWR 0x120 'H' state.value")
-    walk(chk, repo)
+    ok_, why_ = walk_exec(chk, repo)
+    try:
+        walk(chk, repo)
+    except AnalysisError as e:
+        if not ok_:
+            raise
+        # another shape of the walk: the runs against the model decide
+        chk.ob("R14.3", T + ".to_operational", "the walk is not written "
+               "as the loop the path rules know; decided by the runs "
+               "against the state machine model", True,
+               repo.func(T + ".to_operational"), str(e))
     from . import c24
     c24.release_is_sent(chk, repo)
     chk.doc("R14.5", "subclasses of Terminal do not re-implement the state "
@@ -94,6 +104,148 @@ def run(chk, repo):
                   "polls through these methods; an override that skips, "
                   "caches or reorders a request changes which control "
                   "writes reach the terminal")
+
+
+class _ESM:
+    """the EtherCAT state machine of a terminal behind its two registers:
+    AL control 0x120 (requested state, bit 4 acknowledges an error) and AL
+    status 0x130 (state, bit 4 = error; status code at 0x134).  A request
+    takes `delay` status reads to complete; a refused one raises the error
+    flag instead."""
+
+    def __init__(self, state, err, delay, refuse=()):
+        self.state, self.err, self.delay = state, err, delay
+        self.code = 0x1d if err else 0
+        self.refuse = set(refuse)
+        self.pending = None
+        self.writes = []
+        self.reads = 0
+        self.bad = []
+
+    def roundtrip(self, cmd, pos, offset, *args, **kw):
+        name = getattr(cmd, "name", cmd)
+        if pos != 7:
+            self.bad.append(f"terminal {pos} addressed")
+        if name == "FPRD" and offset == 0x130 and args == ("H2xH",):
+            self.reads += 1
+            if self.pending is not None:
+                self.pending[1] -= 1
+                if self.pending[1] < 0:
+                    req = self.pending[0]
+                    self.pending = None
+                    if req in self.refuse:
+                        self.err, self.code = True, 0x1e
+                    else:
+                        self.state = req
+            return (self.state | (0x10 if self.err else 0), self.code)
+        if name == "FPWR" and offset == 0x120 and len(args) == 2 and \
+                args[0] == "H":
+            v = args[1]
+            self.writes.append(v)
+            if self.pending is not None:
+                # the request before this one is worked off first
+                req0, self.pending = self.pending[0], None
+                if req0 in self.refuse:
+                    self.err, self.code = True, 0x1e
+                else:
+                    self.state = req0
+            if v & 0x10:
+                self.err, self.code = False, 0
+            req = v & 0xf
+            up = {1: 2, 2: 4, 4: 8}
+            if self.err:
+                return ()
+            if req != self.state and req > self.state and up.get(
+                    self.state) != req:
+                self.err, self.code = True, 0x11     # a state was skipped
+            elif req != self.state:
+                self.pending = [req, self.delay]
+            return ()
+        self.bad.append(f"roundtrip({name}, {offset:#x}, {args})")
+        return ()
+
+
+def walk_exec(chk, repo):
+    """to_operational by abstract execution against the state machine model:
+    start states INIT..OP with and without a pending error, targets PRE-OP
+    .. OP, completion delays of 0..2 reads, and terminals that refuse a
+    state.  Returns False when the method cannot be executed."""
+    sym = T + ".to_operational"
+    f = repo.func(sym)
+    tci = repo.cls(T)
+    ms = repo.cls("ebpfcat.ethercat.MachineState")
+    mem = Evaluator(repo, ms.module).enum_members(ms)
+    by_code = {m.value: m for m in mem.values()}
+    bad = []
+    rows = 0
+    for s0 in (1, 2, 4, 8):
+        for err0 in (False, True):
+            for tgt in (2, 4, 8):
+                for delay in (0, 2):
+                    for refuse in ((), (4,), (8,)):
+                        rows += 1
+                        dev = _ESM(s0, err0, delay, refuse)
+                        me = Obj(tci, {"position": 7, "ec": Obj(None, {
+                            "roundtrip": ("hook", dev.roundtrip)})})
+                        tag = (f"terminal in {by_code[s0].name}"
+                               f"{' with error' if err0 else ''}, target "
+                               f"{by_code[tgt].name}, requests complete "
+                               f"after {delay} reads"
+                               + (f", refuses {by_code[refuse[0]].name}"
+                                  if refuse else ""))
+                        start = 1 if err0 else s0
+                        want = [0x11] if err0 else []
+                        cur, failed = start, False
+                        for nxt in (2, 4, 8):
+                            if nxt <= cur:
+                                continue
+                            if cur >= tgt:
+                                break
+                            want.append(nxt)
+                            if nxt in refuse:
+                                failed = True
+                                break
+                            cur = nxt
+                        try:
+                            r = Evaluator(repo, f._module, tci).call_function(
+                                f, [me], {"target": by_code[tgt]}, cls=tci)
+                            raised = None
+                        except Budget as e:
+                            bad.append(f"{tag}: does not end ({e})")
+                            continue
+                        except Unknown as e:
+                            return False, str(e)
+                        except Raised as e:
+                            raised = e.what
+                            r = None
+                        if dev.bad:
+                            bad.append(f"{tag}: {dev.bad[0]}")
+                        elif dev.writes != want:
+                            bad.append(
+                                f"{tag}: requests "
+                                f"{[hex(v) for v in dev.writes]}, expected "
+                                f"{[hex(v) for v in want]}")
+                        elif failed and (raised is None or "EtherCatError"
+                                         not in raised):
+                            bad.append(f"{tag}: the refusal is not "
+                                       f"reported ({raised or r!r})")
+                        elif not failed and raised is not None:
+                            bad.append(f"{tag}: raises {raised[:40]}")
+                        elif not failed and (
+                                not isinstance(r, tuple) or len(r) != 3
+                                or r[0] != by_code[s0]
+                                or r[1] is not err0):
+                            bad.append(f"{tag}: returns {r!r}, the state "
+                                       f"before was {by_code[s0].name}, "
+                                       f"error {err0}")
+    chk.ob("R14.3", sym, f"the states between the start state and the "
+           f"target are requested one by one, in order, each after the one "
+           f"before was reached; nothing is requested at or above the "
+           f"target; an error is acknowledged first and a refusal reported "
+           f"({rows} runs against a model of the terminal's state machine, "
+           f"by abstract execution)", not bad, f, "; ".join(bad[:3]) or
+           "start states x error x target x delay x refusing terminals")
+    return True, None
 
 
 DIRECT = "self.ec.roundtrip(ECCmd.FPWR, self.position, 288, 'H', $v)"
